@@ -47,11 +47,16 @@ def scratch(tag='run'):
 
 # --------------------------------------------------------------------------- TLC
 
-def _tlc_env(d):
+def _tlc_env(d, heap='4g'):
+    """environment of a TLC run; the JVM heap is capped (several checks may run at the same time;
+    the JVM default of 25 % of the RAM per process would add up)"""
     env = dict(os.environ)
     tmp = os.path.join(d, 'jtmp')
     os.makedirs(tmp, exist_ok=True)
-    env['JAVA_TOOL_OPTIONS'] = (env.get('VERIF_JAVA_OPTS', '') + ' -Djava.io.tmpdir=' + tmp + ' -Xss64m').strip()
+    opts = env.get('VERIF_JAVA_OPTS', '')
+    if '-Xmx' not in opts:
+        opts += ' -Xmx' + heap
+    env['JAVA_TOOL_OPTIONS'] = (opts + ' -Djava.io.tmpdir=' + tmp + ' -Xss64m').strip()
     return env
 
 
@@ -103,7 +108,7 @@ def tlc_check(module, cfg, workers=None, timeout=600, coverage=False, extra=None
         if coverage:
             cmd += ['-coverage', '1']
         cmd += [module]
-        env = _tlc_env(d)
+        env = _tlc_env(d, heap or '10g')
         rc, out, wall = _run_tlc(cmd, d, env, timeout)
         res = {'rc': rc, 'out': out, 'wall': wall, 'generated': 0, 'distinct': 0, 'depth': 0,
                'violated': [], 'complete': False, 'ok': False, 'zero_cov': []}
